@@ -459,6 +459,10 @@ func (t *Trie) updateRefCount(h util.Uint256, key []byte, index uint32) int32 {
 		var err error
 		data, err = getFromStore(key, t.mode, t.Store)
 		if err == nil {
+			// The slice belongs to a storage layer below (the write cache
+			// shared with persisting routine or the store itself), it must
+			// not be changed in place.
+			data = bytes.Clone(data)
 			cnt = int32(binary.LittleEndian.Uint32(data[len(data)-4:]))
 		}
 	}
